@@ -392,7 +392,14 @@ func (p *provider) createAllSingletonsWithContext(ctx context.Context) error {
 		}
 
 		// Check if already created
-		if _, exists := p.getSingleton(key); exists {
+		if instance, exists := p.getSingleton(key); exists {
+			if _, absent := instance.(absentOutput); absent {
+				return &ResolutionError{
+					ServiceType: descriptor.Type,
+					ServiceKey:  descriptor.Key,
+					Cause:       absentOutputError(key),
+				}
+			}
 			continue
 		}
 
